@@ -174,6 +174,16 @@ Theorem shrake_rupley_is_rows : forall c sched rows,
 Proof. exact shrake_rupley_rows. Qed.
 Print Assumptions shrake_rupley_is_rows.
 
+(* the two-stage form in which the correspondence evaluates the model (stage 1 once per system, stage 2 per mode)
+   is the same function *)
+Theorem shrake_rupley_two_stage_evaluation : forall c sched md, covers (length (c_frames c)) sched ->
+  shrake_rupley true sched (set_mode md c) = shrake_rupley_post (set_mode md c) (shrake_rupley_pre c).
+Proof.
+  intros c sched md H. exact (eq_trans (shrake_rupley_two_stage (set_mode md c) sched H)
+                                       (f_equal _ (shrake_rupley_pre_mode_irrelevant md c))).
+Qed.
+Print Assumptions shrake_rupley_two_stage_evaluation.
+
 (* ---- non-vacuity: the hypotheses are satisfiable by non-trivial instances ---- *)
 
 (* two overlapping atoms, a selection of one atom, two residues, six points on the unit sphere (M = 4):
